@@ -322,6 +322,35 @@ func runBytes(op string) (out string) {
 			break // the connection is gone
 		}
 	}
+	// a SELECT prepared on one connection and executed on another is still a SELECT: never overridden
+	if len(res) == nreq && nreq > 0 && len(unsupported) > 0 && !strings.Contains(res[len(res)-1], "closed") {
+		if cl2, err := env.Dial(version, comp); err == nil {
+			ex := &message.Execute{QueryId: pid(stmtSelect), ResultMetadataId: pid(stmtSelect + "m"), Options: &message.QueryOptions{Consistency: primitive.ConsistencyLevel(unsupported[0])}}
+			raw, err := cl2.Encode(77, ex, nil)
+			mu.Lock()
+			delete(got, -1)
+			mu.Unlock()
+			tok := "same"
+			if err == nil && cl2.WriteBytes(raw) == nil {
+				_, rerr := cl2.Recv(3 * time.Second)
+				mu.Lock()
+				rq := got[-1]
+				mu.Unlock()
+				switch {
+				case rerr != nil || rq == nil:
+					tok = "select-on-other-connection-lost"
+				case rq.Frame == nil:
+					tok = "undecodable-at-backend"
+				default:
+					if e2, ok := rq.Frame.Body.Message.(*message.Execute); !ok || e2.Options.Consistency != primitive.ConsistencyLevel(unsupported[0]) {
+						tok = "override-of-select-prepared-on-another-connection"
+					}
+				}
+			}
+			cl2.Close()
+			res = append(res, tok+"/same")
+		}
+	}
 	// a retried write must carry the bytes of its first attempt, whatever went through the connection in between:
 	// two writes in flight, the first answered with a write timeout of the batch log (retried once on the same host)
 	if len(res) == nreq && nreq > 0 && !strings.Contains(res[len(res)-1], "closed") {
